@@ -291,7 +291,7 @@ func (e *Env) assumeLemmaQuantified(pkg *types.Package, name string) {
 		}
 		var pp []string
 		for _, p := range ps {
-			for _, q := range patternTerms(stripBoundItes(p)) {
+			for _, q := range patternTerms(stripBoundItes(simplifySelStore(p))) {
 				pp = append(pp, e.hoistItes(q))
 			}
 		}
